@@ -46,6 +46,18 @@ if wave and wave >= '7':
               'of a range; results that are right for every layer / bin / sample but one chosen by position (the middle one, the second,\n'
               'the last but one); unit or convention changes in what is WRITTEN or REPORTED rather than in what is computed.\n'
               'Do not assert in your demo that taurex is imported from a particular path (the demo will be run against other checkouts).\n')
+if wave and wave >= '8':
+    EXTRA += ('Also already caught by now: state left behind by a rejected model or a failed write, values read twice in a row,\n'
+              'parameters repaired after having been invalid, stars smaller than planets, very hot stars, observation bins sharing a\n'
+              'centre, non-contiguous array views, Python-2 pickles, many MPI ranks, NaN elements, the mpi wrapper module itself,\n'
+              'user-defined prior / mixin / contribution classes, what the optimizer writes about itself.  Think about what a\n'
+              'maintainer would plausibly break while REFACTORING for speed or clarity: vectorising a loop (broadcasting along the\n'
+              'wrong axis when two dimensions happen to be equal in the tests), replacing a loop by a cumulative sum (off by one\n'
+              'element, or inclusive vs exclusive), merging two similar functions (one of them had a subtle extra step), hoisting a\n'
+              'computation out of a loop although it depends on the loop variable in one branch, changing a default argument,\n'
+              'converting units at a different place (twice, or not at all, on one path), switching between in-place and copying\n'
+              'operations, early returns that skip a final normalisation or bookkeeping step.  Prefer defects that are numerically\n'
+              'SMALL but systematic (a few parts in 1e4-1e6) over gross ones, as long as they clearly violate the statement.\n')
 if wave and wave >= '4':
     import glob, os
     prev = []
